@@ -27,6 +27,18 @@ LEMMAS = [
     },
 ]
 
+LEMMAS.append(
+    {
+        "id": "L3-from-timespec-month-day",
+        "function": "tz::datetime::UtcDateTime::from_timespec",
+        "kind": "NARROW",
+        "max_n": 1,
+        "cannot": "needs the Euclidean remainder cascade: remaining_days - min(remaining_days / D, k) * D lies in [0, D] for D = 36524, 1461, 365, and the month loop leaves remaining_days < days_in_month; intervals lose the relation at the first subtraction",
+        "holds": "after the 400/100/4/1-year decomposition remaining_days is in [0, 365]; the month loop subtracts whole months of the leap-year-from-March table (sum 366), so it exits with remaining_days < 31 and month_day = 1 + remaining_days is in [1, 31] — the numeric content of C01",
+        "consequence": {"cast_result": [1, 31]},
+    }
+)
+
 CONTRACTS = {
     # value half of the binary-search contract: Err(i) => i == 0 or slice[i-1] < x.
     # Used only to exclude Err(0) when the first element of a *constant* table is <= x.
